@@ -392,7 +392,16 @@ func run(c Case) *h.Result {
 		want := m.Run(forms)
 		ev.MustEval(scope, setup.String())
 		ev.ResetTrace()
-		got := eval()
+		// the generated programs terminate (the reference has just run this one); a program that blocks - on a mutex an
+		// earlier exit did not release - is given 30 s, a million times what it needs
+		done := make(chan ev.Outcome, 1)
+		go func() { done <- eval() }()
+		var got ev.Outcome
+		select {
+		case got = <-done:
+		case <-time.After(30 * time.Second):
+			return fmt.Sprintf("program%s:\n%s\n  does not finish (30 s; the reference evaluator finishes with %s, trace %s); trace so far: %s", how, c.Prog, r.Show(firstVal(want.Vals)), want.Trace, ev.TraceString())
+		}
 		gotTrace := ev.TraceString()
 		describe := func() string {
 			w := "value " + r.Show(firstVal(want.Vals))
